@@ -36,15 +36,16 @@ CHECKS = {
         "tests": [
             {"name": "TestC09Transparency", "quick": 320000, "thorough": 2400000},
             {"name": "TestC09Tail", "quick": 320000, "thorough": 2400000},
+            {"name": "TestC09DoubleDD", "quick": 160000, "thorough": 1600000},
         ],
         "rule": "(1) transparency: programs without spec-level -- and without env-backed options, argv from the C01 sources (accepted and rejected) not containing -- ; "
                 "the trailing block = maximal suffix of tokens not starting with '-' and not the separate-form value of a valued option (spec-independent lexing); "
                 "for EVERY insertion point from the start of the block to the very end, inserting -- must leave acceptance and all bound values unchanged (evaluations count insertion points); "
                 "(2) verbatim tail: specs 'P -- T' and 'P [--] T' (P options only, T one of X... / X [Y...] / [X...] / X Y), argv = sentence of P ++ tail of arbitrary tokens "
                 "(first one non-dash, or an explicit --): accepted with the tail bound verbatim in order iff the arity fits; (3) outcome of ('P -- T', p t) == outcome of ('P T', p -- t); "
-                "plus the reference-model verdict on every run. non-trivial = insertion point with an option before and a token after, or the very-end point on an accepted line, "
+                "(4) TestC09DoubleDD: specs holding TWO spec-level -- in the nestings of the README's '[-- CMD [ARG...]] -- FILE...', command lines with dash-prefixed tokens sprinkled in, verdict and bindings judged by the reference semantics; plus the reference-model verdict on every run. non-trivial = insertion point with an option before and a token after, or the very-end point on an accepted line, "
                 "or a tail containing a dash-prefixed token; distinct by (program, argv, point/tail)",
-        "required_classes": {"insert:very-end-accepted": 0.05, "insert:opts-before-tokens-after": 0.005, "tail:has-dash-prefixed-token": 0.05, "tail:spec-dd-equals-cmdline-dd": 0.05, "tail:spec-dd-is-optional": 0.03},
+        "required_classes": {"insert:very-end-accepted": 0.05, "insert:opts-before-tokens-after": 0.005, "tail:has-dash-prefixed-token": 0.05, "tail:spec-dd-equals-cmdline-dd": 0.05, "tail:spec-dd-is-optional": 0.03, "doubledd:dash-token-bound-as-data": 0.02},
         "assumptions": COMMON_ASSUMPTIONS + ["argv tokens of the shape '-f-...' (dash after flag letters, whose residue the library reads as --) are set aside and counted"],
     },
     "C10": {
